@@ -25,17 +25,12 @@ def TraitType.isLeaf : TraitType → Bool
   | .either .. | .compoundH .. => false
   | _ => true
 
-/-- Leaves on which the two paths are NOT known to differ (see findings): the
-Python validate of `Callable(allow_none=False)` ignores allow_none,
-TraitCoerceType.validate compares exact types / always converts, and a class
-that None is an instance of defeats allow_none=False on the C path only. -/
+/-- Leaves on which the two paths are NOT known to differ (see findings):
+TraitCoerceType.validate compares exact types / always converts (F41, F42).
+(Callable(allow_none=False), F40, and Instance of a class None is an instance
+of, F47, were repaired in 58d344c / 0abe830.) -/
 def TraitType.leafClean : TraitType → Bool
-  | .callable false => false
   | .coerceH _ => false
-  -- Instance(object, allow_none=False): None is an instance of the class, the C
-  -- validator accepts it, the Python validator tests `value is None` first
-  | .instance cls an mode _ => an || !Val.isInst cls Val.none || decide (mode ≠ 0)
-  | .instanceH cls an => an || !Val.isInst cls Val.none
   | _ => true
 
 /-- Not an instance of a tuple subclass (F11). -/
@@ -85,6 +80,10 @@ theorem Val.eq_none_of_isNone (v : Val) (h : v.isNone = true) : v = Val.none := 
   · cases a <;> simp [Val.isNone] at h ⊢
   · simp [Val.isNone] at h
   · simp [Val.isNone] at h
+
+/-- None is not an instance of any of `TypeTypes` (str, int, float, complex, list, tuple, dict, bool). -/
+theorem isInst_typeType_none (cls : Ty) (h : cls.isTypeType = true) : Val.isInst cls Val.none = false := by
+  cases cls <;> simp [Ty.isTypeType] at h <;> rfl
 
 theorem asInteger_eq_py (v : Val) : asInteger v = pyValidateInt v := by
   unfold asInteger pyValidateInt; rfl
@@ -207,6 +206,7 @@ theorem agree_leaf (hE : CastIdem E) (t : TraitType) (d : Desc) (v : Val)
         simp only [fastAlone]
         by_cases hn : v.isNone = true
         · have := Val.eq_none_of_isNone v hn; subst this
+          have := isInst_typeType_none cls ht
           cases an <;> simp_all [Agree, Val.isNone]
         · simp [hn]; split <;> simp_all [Agree]
       · simp [ht] at hd; subst hd
@@ -224,12 +224,8 @@ theorem agree_leaf (hE : CastIdem E) (t : TraitType) (d : Desc) (v : Val)
     repeat' split
     all_goals simp_all [Agree, Bool.or_comm]
   case callable an =>
-    cases an with
-    | false => simp at hc
-    | true =>
-      simp only [fastAlone, pyValidate, validateCallable]
-      repeat' split
-      all_goals simp_all [Agree]
+    simp only [fastAlone, pyValidate, validateCallable]
+    by_cases hn : v.isNone = true <;> cases an <;> by_cases hcl : v.callable = true <;> simp [hn, hcl, Agree]
   case castH ty =>
     simp only [fastAlone, pyValidate, pyCastAny]
     repeat' split
@@ -241,6 +237,7 @@ theorem agree_leaf (hE : CastIdem E) (t : TraitType) (d : Desc) (v : Val)
       simp only [fastAlone]
       by_cases hn : v.isNone = true
       · have := Val.eq_none_of_isNone v hn; subst this
+        have := isInst_typeType_none cls ht
         cases an <;> simp_all [Agree, Val.isNone]
       · simp [hn]; split <;> simp_all [Agree]
     · simp [ht] at hd; subst hd
